@@ -1218,3 +1218,27 @@ def r04_9(ctx):
     ctx.check(('N', 'N') in sts and ('S', 'S') in sts and ('S', 'N') in sts, R, key + '|protocol states (positive control)', b.loc(), 'states between ops: %s' % sorted(sts), 'the typestate interpreter does not reach the op loop with the expected states (%s): fail closed' % sorted(sts))
     ctx.check(('N', 'S') not in sts, R, key + '|first segment implies cursor', b.loc(), 'no op leaves a first-segment record without a current point',
               'an op sequence leaves `%s` Some while `%s` is None: the end caps / closing join of that subpath are never emitted' % (b.local_name(rec), b.local_name(cur)))
+
+
+def r04_10(ctx):
+    """Close never drops the cursor: whatever follows close() continues from the subpath's start, so an arm entered with
+    a current point must leave with one (a subpath that has no segment yet — move_to; close — starts at its move_to point)"""
+    import typestate
+    R = 'R04.10'
+    b = ctx.body(ST + 'stroke_to_path', R)
+    an = ctx.an(b)
+    key = 'stroke::stroke_to_path'
+    m = op_match(ctx, b, R)
+    if m is None or 'Close' not in m.arms:
+        return
+    import props.c16 as c16
+    curs = c16.cursor_locals(ctx, b, m)
+    recs = [i for i, l in enumerate(b.locals) if l.get('name') and l['ty'].startswith('std::option::Option<(') and 'Vector2D' in l['ty']]
+    if not ctx.check(len(curs) == 1 and len(recs) == 1, R, key + '|cursors', b.loc(), 'cursor and first-segment record found', 'cannot identify the cursor and the first-segment record of stroke_to_path (fail closed)'):
+        return
+    cur, rec = list(curs)[0], recs[0]
+    stop = an.cfg.ipdom(m.bb)
+    at = typestate.run(ctx, b, [cur, rec], entry={('S', 'N'), ('S', 'S')}, start=m.arms['Close'], stop=stop)
+    outs = at.get(stop, set())
+    ctx.check(bool(outs) and all(st[0] == 'S' for st in outs), R, key + '|Close keeps the cursor', b.loc(), 'Close arm: cursor Some on entry => Some on exit (exit states %s)' % sorted(outs),
+              'the Close arm can be entered with a current point and left without one (exit states %s), e.g. move_to; close; line_to: the subpath has no segment yet, its start is the move_to point, but `%s` becomes None and the following segment is never stroked (fill and flatten continue from the start point)' % (sorted(outs), b.local_name(cur)))
